@@ -15,7 +15,6 @@ from __future__ import annotations
 
 import os
 import re
-import traceback
 
 # three sessions with different negotiated parameters (refwire.strategies session descriptions)
 SESSIONS = [
@@ -88,10 +87,14 @@ def setup() -> dict:
 
 def _where(exc: BaseException) -> str:
     repo = _T.get('repo', '/repo/src')
-    for frame in reversed(traceback.extract_tb(exc.__traceback__)):
-        if frame.filename.startswith(repo):
-            return f'{os.path.relpath(frame.filename, repo)}:{frame.name}'
-    return 'outside-exabgp'
+    where = 'outside-exabgp'
+    tb = exc.__traceback__
+    while tb is not None:  # (no traceback.extract_tb: it reads the source files)
+        code = tb.tb_frame.f_code
+        if code.co_filename.startswith(repo):
+            where = f'{os.path.relpath(code.co_filename, repo)}:{code.co_name}'
+        tb = tb.tb_next
+    return where
 
 
 def _exc(exc: BaseException) -> str:
